@@ -145,7 +145,7 @@ def family(rng, count):
         n = rng.choice(POOL)
         init = rng.choice([None, 'I'])
         kind = rng.choice(['define', 'repeat', 'define-repeat', 'define-define', 'global', 'global-inner', 'tuple', 'tuple-repeat',
-                           'macro-global', 'macro-local', 'use-macro-global'])
+                           'macro-global', 'macro-local', 'use-macro-global', 'same-define', 'same-repeat', 'same-define-repeat'])
         v1, v2 = 'V1', 'V2'
         env0 = init if init else None
         P = probe(n)
@@ -164,6 +164,17 @@ def family(rng, count):
         elif kind == 'define-define':
             src = '%s<div tal:define="%s \'%s\'">%s<b tal:define="%s \'%s\'">%s</b>%s</div>%s' % (P, n, v1, P, n, v2, P, P, P)
             exp = '[%s]<div>[%s]<b>[%s]</b>[%s]</div>[%s]' % (s(env0), v1, v2, v1, s(env0))
+        elif kind == 'same-define':
+            # nested elements whose clauses are the same text, character for character
+            src = '%s<div tal:define="%s \'%s\'">%s<b tal:define="%s \'%s\'">%s</b>%s</div>%s' % (P, n, v1, P, n, v1, P, P, P)
+            exp = '[%s]<div>[%s]<b>[%s]</b>[%s]</div>[%s]' % (s(env0), v1, v1, v1, s(env0))
+        elif kind == 'same-repeat':
+            src = '%s<i tal:repeat="%s [\'r1\']">%s<b tal:repeat="%s [\'r1\']">%s</b>%s</i>%s' % (P, n, P, n, P, P, P)
+            exp = '[%s]<i>[r1]<b>[r1]</b>[r1]</i>[%s]' % (s(env0), s(env0))
+        elif kind == 'same-define-repeat':
+            # (a one-character string: the definition binds it, the loop iterates over its one character)
+            src = '%s<div tal:define="%s \'r\'">%s<i tal:repeat="%s \'r\'">%s</i>%s</div>%s' % (P, n, P, n, P, P, P)
+            exp = "[%s]<div>[r]<i>[r]</i>[r]</div>[%s]" % (s(env0), s(env0))
         elif kind == 'global':
             src = '%s<div tal:define="global %s \'%s\'">%s</div>%s' % (P, n, v1, P, P)
             exp = '[%s]<div>[%s]</div>[%s]' % (s(env0), v1, v1)
